@@ -50,6 +50,7 @@ def run(ctx):
         ctx.broke("premise of c06_wire_level: a cipher classed stream-like (none/xor/salsa20) did not decrypt a wire "
                   "bit flip beyond the header to the same bit flip (%d of %d)" %
                   (extra.get("stream_like_mismatches"), extra.get("stream_like_checks")))
+    U.io_part(ctx)   # the recvmmsg loop: a datagram on which packetInput is the identity can sit anywhere in a batch (io_rx_noop_insert)
     U.run_parts(ctx, ["listener", "client"])
     if ctx.broken and not ctx.violations and ctx.quick():
         # search: the deep-snapshot monitor alone over the exhaustive sweeps (all bit flips of more
